@@ -1,6 +1,14 @@
 From Coq Require Import List NArith Bool Arith.
 From AMV Require Import Base.ListSet Model.Schema Model.Machine Run.EvalHist Spec.C03.
+From AMV Require Export Spec.C03e.
 Import ListNotations.
 Definition violations (k : hcase) : list N :=
   nodup N.eq_dec (c03_codes (h_schema k) (Nat.eqb (length (h_bindings k)) 0) (h_calls k) (h_obs k)).
-Definition check_all := check_hist violations.
+Inductive c03case := C03H (k : hcase) | C03E (e : ecase).
+
+Definition check_all (cs : list (N * c03case)) : list (N * N * N) :=
+  flat_map (fun ic : N * c03case =>
+    match snd ic with
+    | C03H k => check_hist violations [(fst ic, k)]
+    | C03E e => map (fun c => (fst ic, 2%N, c)) (early_codes e)
+    end) cs.
